@@ -95,6 +95,15 @@ theorem safe_forms_agree (m : SafeMacro) (lens : Param → Nat) (D : Nat) (h : D
   have hm : m ∈ allSafeMacros := by cases m <;> decide
   exact forall_mem_of_all _ _ safe_asserts_same m hm
 
+/-- **C12 (safe API, backends).** The two forms of every safe wrapper macro offer the dispatcher the same slots, in the same
+order, with the wrapper's arguments in the same order: under every CPU feature mask both forms therefore select the same
+backend (by `C09.dispatch_spec` the selection is a function of the offered slots and the mask) and hand it the same
+operands. A form that lacks, say, the `avx512` line runs the AVX2 routine where the other runs AVX-512 — same value for
+integers, other bits for a float sum. -/
+theorem safe_forms_same_slots : allSafeMacros.all (fun m =>
+    (safeArmOf m .xconst).slots.map (fun s => (s.label, s.args)) == (safeArmOf m .xany).slots.map (fun s => (s.label, s.args))) = true := by
+  decide +kernel
+
 /-- non-vacuity: the vertical wrappers do assert something, and the hypothesis is satisfiable -/
 example : (safeArmOf .export_safe_vertical_op .xconst).asserts.length = 3 ∧
     assertsPass (fun _ => 5) 5 (safeArmOf .export_safe_vertical_op .xany).asserts = true := by decide
